@@ -987,7 +987,8 @@ impl<Octs: Octets> PeerUpNotification<Octs> {
     // XXX: 
     pub fn information_tlvs(&self) -> InformationTlvIter {
         let mut parser = Parser::from_ref(&self.octets);
-        parser.advance(6+42).expect("parsed before");
+        // headers, local address, local port, remote port
+        parser.advance(COFF+20).expect("parsed before");
         BgpOpen::parse(&mut parser).expect("parsed before");
         BgpOpen::parse(&mut parser).expect("parsed before");
 
@@ -1013,7 +1014,7 @@ impl<Octs: Octets> PeerUpNotification<Octs> {
         BgpOpen::parse(&mut parser)?; //TODO turn into check
 
         // optional Information
-        if parser.remaining() > 0 { 
+        while parser.remaining() > 0 { 
             // Information TLVs of type 0 (String)
             let info_type = parser.parse_u16_be()?;
             if info_type != 0 {
